@@ -34,7 +34,7 @@ func truncate(s string, n int) string {
 	return s
 }
 
-var c17Families = []string{"lr", "lr2", "expr", "expr4", "mutual", "mutual3", "hidden", "brackets", "seplist", "rightrec", "exprparen", "tower4", "tower5", "tower6", "hiddenmany", "hiddensepby", "hiddenopts", "hidden2", "hiddenempties", "calls", "kwexpr", "ltexpr", "silentbrackets"}
+var c17Families = []string{"lr", "lr2", "expr", "expr4", "mutual", "mutual3", "hidden", "brackets", "seplist", "rightrec", "exprparen", "tower4", "tower5", "tower6", "hiddenmany", "hiddensepby", "hiddenopts", "hidden2", "hiddenempties", "calls", "kwexpr", "ltexpr", "silentbrackets", "nullablebrackets"}
 
 var towerOps = "%^&|+*"
 
@@ -207,6 +207,13 @@ func c17Parser(family string, variant int, limit *int) parsley.Parser {
 		t = memo(combinator.SuppressError(combinator.Any(wrap(combinator.SeqOf(r('('), &t, r(')'))), wrap(combinator.SeqOf(r('('), &t, r(']'))), r('b'))))
 		u = memo(first(wrap(combinator.SeqOf(r('('), &u, r(')'))), r('a')))
 		return alt(&t, &u)
+	case "nullablebrackets": // ITEMS -> ITEM* (memoized) ; ITEM -> ( ITEMS ) | ( ITEMS ] | x (not memoized)
+		// where a closer is missing ITEMS matches nothing, and both alternatives of ITEM ask for it: a
+		// zero-width answer has to come from the cache like any other
+		var items, item parser.Func
+		items = memo(combinator.Many(&item))
+		item = combinator.Any(wrap(combinator.SeqOf(r('('), &items, r(')'))), wrap(combinator.SeqOf(r('('), &items, r(']'))), r('x'))
+		return &items
 	case "brackets": // N -> ( N ) | [ N ] | a
 		var n parser.Func
 		n = memo(first(wrap(combinator.SeqOf(r('('), &n, r(')'))), wrap(combinator.SeqOf(r('['), &n, r(']'))), r('a')))
@@ -380,6 +387,17 @@ func c17ValidInput(family string, n int, shape int) string {
 			}
 		}
 		return sb.String()
+	case "nullablebrackets":
+		k := n / 2
+		switch shape {
+		case 0:
+			return strings.Repeat("(", k) + "x" + strings.Repeat(")", k)
+		case 1:
+			return strings.Repeat("(", k) + strings.Repeat("]", k)
+		case 2:
+			return strings.Repeat("(x", k/2) + strings.Repeat(")", k/2)
+		}
+		return strings.Repeat("(", k) + "xx" + strings.Repeat(")]", k/2) + strings.Repeat(")", k%2)
 	case "silentbrackets":
 		k := n / 2
 		switch shape {
@@ -507,7 +525,7 @@ func checkC17(ci interface{}, st *Stats) error {
 	default:
 		st.Class("ratio 9-16")
 	}
-	if c.N >= 24 && c.Family != "brackets" && c.Family != "silentbrackets" && c.Family != "seplist" && c.Family != "rightrec" {
+	if c.N >= 24 && c.Family != "brackets" && c.Family != "silentbrackets" && c.Family != "nullablebrackets" && c.Family != "seplist" && c.Family != "rightrec" {
 		st.NonTrivial()
 	}
 	if c.Shape >= 4 {
